@@ -1,12 +1,12 @@
 SPECIFICATION Spec
 CONSTANTS
   MaxDims = 3
-  Lens = {1, 2, 3}
+  Lens = {1, 2}
   MaxOps = 3
   MaxCellsFull = 8
   AB_ColumnMajorWrite = FALSE
   ShapeSet <- MCShapeSet
-  Ctors <- MCAllCtors
+  Ctors <- MCTwoCtors
 INVARIANTS
   LastWriteWins
   RefusedWritesChangeNothing
